@@ -16,13 +16,19 @@ def pmat(nrow, ncol, edges):
 def mspec(nrow, ncol, edges, dtype='int', fmt='csr', rng=None):
     """Weights are ignored by this module: besides unit weights, signed weights (whose sums over the reached
     in-neighbours can cancel) and small unsigned integers (whose sums can wrap) are valid inputs."""
+    zeros = []
+    if rng is not None and fmt == 'csr' and rng.random() < 0.2:
+        # explicitly stored zeros (what `A[i, j] = 0` or `A.data[k] = 0` leaves behind): a stored zero is not an edge
+        have = set(edges)
+        free = [(i, j) for i in range(nrow) for j in range(ncol) if (i, j) not in have]
+        zeros = [[i, j, 0] for (i, j) in rng.sample(free, min(len(free), rng.randint(1, 3)))]
     if rng is not None and dtype != 'bool':
         kind = rng.choice(['unit', 'unit', 'signed', 'uint8'])
         if kind == 'signed':
-            return {'shape': [nrow, ncol], 'coo': [[i, j, rng.choice([-2, -1, 1, 2])] for (i, j) in edges], 'dtype': dtype, 'fmt': fmt}
+            return {'shape': [nrow, ncol], 'coo': [[i, j, rng.choice([-2, -1, 1, 2])] for (i, j) in edges] + zeros, 'dtype': dtype, 'fmt': fmt}
         if kind == 'uint8':
-            return {'shape': [nrow, ncol], 'coo': [[i, j, rng.choice([128, 64, 255, 1])] for (i, j) in edges], 'dtype': 'uint8', 'fmt': fmt}
-    return {'shape': [nrow, ncol], 'coo': [[i, j, 1] for (i, j) in edges], 'dtype': dtype, 'fmt': fmt}
+            return {'shape': [nrow, ncol], 'coo': [[i, j, rng.choice([128, 64, 255, 1])] for (i, j) in edges] + zeros, 'dtype': 'uint8', 'fmt': fmt}
+    return {'shape': [nrow, ncol], 'coo': [[i, j, 1] for (i, j) in edges] + zeros, 'dtype': dtype, 'fmt': fmt}
 
 
 def src_lit(s):
